@@ -1,5 +1,6 @@
 """C10  Go-to-definition lands on the declaration the scoping rules select."""
-from vlib import core, diff
+import glob, os, random
+from vlib import core, diff, goldgen
 from checks import sem_common as S
 
 PID = "C10"
@@ -35,7 +36,9 @@ MANIFEST = dict(
           "top-level constants/types/fields declared before the first method, locals declared at the top of the body."),
     design="6 C10",
     engines=[dict(name="E-sem", path="harness/src/eng_sem.rs + coq/extract/eng_sem.ml",
-                  kind_free_text="differential: ProjectManager::generate_goto_definitions / generate_completion_proposals on a rendered temp workspace (positional queries) vs the extracted Coq scoping model (abstract queries); answers = ordered (target stem, selection range) lists / sorted label lists")],
+                  kind_free_text="differential: ProjectManager::generate_goto_definitions / generate_completion_proposals on a rendered temp workspace (positional queries) vs the extracted Coq scoping model (abstract queries); answers = ordered (target stem, selection range) lists / sorted label lists"),
+             dict(name="E-annot", path="harness/src/eng_annot.rs + coq/extract/eng_annot.ml",
+                  kind_free_text="two-phase differential: real lexer+parser+AstAnnotator (full and definitions-only mode; root table and every method node's table: for_class_or_module, symbols in iter_symbols order with id / SymbolType / selection_range / range, uses) vs the extracted Coq model Annot.annotate on the dumped tree; C10_tables_from_tree* tie these tables to Scoping.root_table / method_table")],
 )
 
 ASSUMPTIONS = [
@@ -47,6 +50,7 @@ ASSUMPTIONS = [
     "no method name is declared twice in one entity (each procedure/function has one body scope)",
     "inside method m of class C a dotted chain that runs through a strict descendant D of C does not continue with a name that C declares as a method after m (what D's tables see of C at that moment depends on the history of requests: the tables of D are built on demand)",
     "the statement directly after an incomplete line `x.` starts with a keyword (the parser's empty operand extends to the next token, which swallows a cursor placed there)",
+    "tree-level tie (C10_tables_from_tree*, engine annot): the annotated tree is built from get_children_arc while the dump reports get_children_ref (treedump.rs flags a disagreement of the two views with attribute 99; none observed); non-Option struct fields (identifier tokens, name node of a method) are always present in a dumped tree - for other `node` values the model uses range 0; symbol payload other than id / sym_type / selection_range / range (eval_type, type_str, parent) and the parent link of the root table are not part of the tree-level model",
     "HashMap iteration order is not observed: completion labels are compared sorted; definition links are compared in the order returned",
 ]
 
@@ -77,6 +81,7 @@ def correspondence(ctx, broken_obligations=()):
         raise
     cov.update(meta)
     cov.update(S.recase_stage(ctx, PID, KINDS))
+    cov["annot"] = annot_stage(ctx)
     return cov
 
 
@@ -111,4 +116,347 @@ def coverage_meta(cases, hist):
 
 
 def replay(ctx, rep):
+    if rep.get("engine") == "annot":
+        diff.differential(ctx, "annot", [rep["case"]], split=lambda out: tuple(out.split("#", 1)), oracle=annot_oracle,
+                          describe=annot_describe)
+        return 0
     return S.replay(ctx, rep, PID)
+
+
+# =============================================================================================
+# tree-level tie: the symbol tables the abstract theorems talk about ARE the tables AstAnnotator
+# builds from the real syntax tree (Model/Annot.v, Proofs/AnnotProofs.v, C10_tables_from_tree*)
+# engine `annot` (two-phase): text -> real lexer+parser -> tree dump -> real AstAnnotator (full and
+# definitions-only) vs the extracted Annot.annotate on the dumped tree
+# =============================================================================================
+A_NAMES = ["Foo", "foo", "FOO", "Bar", "bar", "Count", "count", "x", "X", "y", "Item", "item", "self", "Self", "Run", "run",
+           "Init", "Value", "value", "tRef", "cMax", "theList", "aThing", "Zed9", "a_b", "I4"]
+A_TYPES = ["int4", "Int4", "cstring", "CString", "boolean", "aThing", "aOther", "tRef", "Num8", "text"]
+
+
+def a_cps(t):
+    return ".".join(str(ord(c)) for c in t)
+
+
+def a_text(case):
+    head = case.split("@")[0].strip()
+    return "".join(chr(int(x)) for x in head.split(".")) if head else ""
+
+
+class AGen:
+    """Gold classes / modules shaped like the files the scoping model abstracts, plus the declarations the
+       annotator treats specially: procedure / function TYPES (their parameters are declaration nodes), locals in
+       nested blocks, Name#Event methods, forward / external methods, duplicate names, names differing in case
+       only, parameters without type, declarations / uses / headers after methods."""
+
+    def __init__(self, rng):
+        self.r = rng
+
+    def name(self):
+        return self.r.choice(A_NAMES)
+
+    def ty(self, depth=0):
+        r = self.r
+        k = r.random()
+        if k < 0.55:
+            return r.choice(A_TYPES)
+        if k < 0.65:
+            return "refTo " + r.choice(["aThing", "aOther", "[P,A] aThing"])
+        if k < 0.75:
+            return "listOf " + r.choice(["aThing", "[O] aOther"])
+        if k < 0.9 and depth < 2:
+            return "procedure (%s)" % self.params(depth + 1) if r.random() < 0.8 else "procedure"
+        if depth < 2:
+            return "function (%s) return %s" % (self.params(depth + 1), r.choice(A_TYPES))
+        return r.choice(A_TYPES)
+
+    def params(self, depth=0):
+        r = self.r
+        ps = []
+        for _ in range(r.randint(0, 3)):
+            k = r.random()
+            mod = r.choice(["", "", "", "inOut ", "var ", "const "])
+            if k < 0.12:
+                ps.append(mod + self.name())                          # no type
+            else:
+                ps.append("%s%s : %s" % (mod, self.name(), self.ty(depth)))
+        return ", ".join(ps)
+
+    def stmts(self, depth, out, ind):
+        r = self.r
+        for _ in range(r.randint(0, 3)):
+            k = r.random()
+            pad = " " * ind
+            if k < 0.35:
+                out.append("%svar %s : %s" % (pad, self.name(), self.ty(1)))
+            elif k < 0.55:
+                out.append("%s%s = %s + 1" % (pad, self.name(), self.name()))
+            elif k < 0.65:
+                out.append("%swriteln(%s.%s)" % (pad, self.name(), self.name()))
+            elif k < 0.8 and depth < 3:
+                out.append("%sif %s > 0" % (pad, self.name()))
+                self.stmts(depth + 1, out, ind + 2)
+                if r.random() < 0.4:
+                    out.append(pad + "else")
+                    self.stmts(depth + 1, out, ind + 2)
+                out.append(pad + "endif")
+            elif k < 0.9 and depth < 3:
+                isloop = r.random() < 0.5
+                out.append(pad + ("loop" if isloop else "while %s < 3" % self.name()))
+                self.stmts(depth + 1, out, ind + 2)
+                out.append(pad + ("endLoop" if isloop else "endWhile"))
+            else:
+                out.append("%s; %s" % (pad, self.name()))
+
+    def method(self):
+        r = self.r
+        out = []
+        isf = r.random() < 0.4
+        nm = self.name() + ("#" + self.name() if r.random() < 0.15 else "")
+        head = "%s %s" % (r.choice(["func", "function", "Func"]) if isf else r.choice(["proc", "procedure", "Proc"]), nm)
+        if r.random() < 0.7:
+            head += "(%s)" % self.params()
+        if isf:
+            head += " return " + r.choice(A_TYPES)
+        k = r.random()
+        if k < 0.1:
+            out.append(head + " forward")
+            return out
+        if k < 0.15:
+            out.append(head + " external 'some.dll'")
+            return out
+        if k < 0.3:
+            head += r.choice([" private", " protected override", " final"])
+        out.append(head)
+        self.stmts(0, out, 2)
+        out.append(r.choice(["endfunc", "endFunc"]) if isf else r.choice(["endproc", "endProc"]))
+        return out
+
+    def decl(self):
+        r = self.r
+        k = r.random()
+        if k < 0.25:
+            return ["const %s = %s" % (self.name(), r.choice(["1", "42", "'txt'", "-1"]))]
+        if k < 0.5:
+            return ["type %s : %s" % (self.name(), self.ty())]
+        if k < 0.55:
+            return ["type %s : record" % self.name(), "  %s : int4" % self.name(), "  %s : cstring" % self.name(), "endRecord"]
+        return ["%s%s : %s" % (r.choice(["", "", "memory "]), self.name(), self.ty())]
+
+    def header(self):
+        r = self.r
+        k = r.random()
+        n = r.choice(["aThing", "aOther", "athing", "Foo"])
+        if k < 0.55:
+            return ["class " + n]
+        if k < 0.75:
+            return ["class %s (%s)" % (n, r.choice(["aBase", n, n.upper()]))]
+        return ["module " + n]
+
+    def uses(self):
+        r = self.r
+        return ["uses " + ", ".join(r.sample(["aLib", "aBase", "aUtil", "aOther", "alib"], r.randint(1, 3)))]
+
+    def program(self):
+        r = self.r
+        lines = []
+        k = r.random()
+        if k < 0.85:
+            lines += self.header()
+        for _ in range(r.choice([0, 1, 1, 2])):
+            lines += self.uses()
+        for _ in range(r.randint(0, 5)):
+            lines += self.decl()
+        for _ in range(r.randint(0, 4)):
+            lines += self.method()
+            if r.random() < 0.12:                                     # something after a method
+                lines += r.choice([self.decl, self.uses, self.header])()
+        if r.random() < 0.1:
+            lines.insert(r.randint(0, len(lines)), "")
+        return "\n".join(lines) + ("\n" if r.random() < 0.9 else "")
+
+
+def a_mutate(rng, text):
+    """hostile variants of a document"""
+    lines = text.split("\n")
+    k = rng.random()
+    if not lines or k < 0.08:
+        return text[:rng.randint(0, len(text))]                      # truncated file
+    i = rng.randrange(len(lines))
+    if k < 0.25:                                                      # duplicate a line (duplicate names)
+        lines.insert(rng.randint(0, len(lines)), lines[i])
+    elif k < 0.4:                                                     # the same line in another letter case
+        lines.insert(rng.randint(0, len(lines)), rng.choice([lines[i].upper(), lines[i].lower(), lines[i].swapcase()]))
+    elif k < 0.5:                                                     # drop a declared type
+        lines[i] = lines[i].split(":")[0] if ":" in lines[i] else lines[i]
+    elif k < 0.6:                                                     # Name#Event
+        lines[i] = re_sub_first(lines[i])
+    elif k < 0.72:                                                    # move a line to the end (declaration after methods)
+        lines.append(lines.pop(i))
+    elif k < 0.8:                                                     # delete a line (unterminated blocks / methods)
+        lines.pop(i)
+    elif k < 0.9 and lines[i]:                                        # delete / insert a character
+        j = rng.randrange(len(lines[i]))
+        lines[i] = lines[i][:j] + rng.choice(["", "", "(", ")", ":", ",", "#", " ", "'", "é", ";", "\t", "\r"]) + lines[i][j + 1:]
+    else:                                                             # swap two lines
+        j = rng.randrange(len(lines))
+        lines[i], lines[j] = lines[j], lines[i]
+    return "\n".join(lines)
+
+
+def re_sub_first(line):
+    import re
+    return re.sub(r"^(\s*(?:proc|procedure|func|function)\s+\w+)", r"\1#Evt", line, count=1, flags=re.I)
+
+
+A_FIXED = [
+    "",
+    "class aFoo",
+    "module aMod\nconst c = 1\nproc P\nendproc\n",
+    "class aFoo (aFoo)\nuses aLib, aLib2\nconst cA = 1\ntype tCb : procedure(x : int4)\nfa : int4\nproc Run(p : int4)\n var l : int4\n if p > 0\n  var inner : cstring\n endif\nendproc\nfb : int4\nuses zz\nfunc G#Ev(cb : procedure(y : int4)) return int4 forward\nconst fa = 2\n",
+    "class aFoo\nFa : int4\nfa : cstring\nFA : int4\nproc Run(Fa : int4, fa : int4)\n var FA : int4\n var Fa : int4\nendproc\nproc RUN\nendproc\n",
+    "proc P(a, b : int4)\n var self : int4\nendproc\nclass aLate\nmodule aLater\n",
+    "class aFoo\nproc A#B(x : int4)\nendproc\nfunc A#B return int4\nendfunc\nproc A # B\nendproc\n",
+    "class aFoo\nproc P\n var a : int4\n",
+    "class aFoo\nf : procedure(a : procedure(b : int4), c : int4)\nproc P(cb : function(q : int4) return int4)\n var v : procedure(w : int4)\nendproc\n",
+]
+
+
+def annot_parse_tables(obs):
+    """'F<tables>|D<tables>' -> {mode: [ (cls, [(name, kind, sel, range)], [uses]) ]} ; None when not of that form"""
+    def cps(s):
+        return "" if s == "-" else "".join(chr(int(x)) for x in s.split("."))
+    res = {}
+    parts = obs.split("|")
+    if len(parts) != 2 or not parts[0].startswith("FR") or not parts[1].startswith("DR"):
+        return None
+    for mode, part in (("F", parts[0][2:]), ("D", parts[1][2:])):
+        tabs = []
+        for t in part.split("M"):
+            a, b = t.index("["), t.index("]")
+            cls = None if t[:a] == "~" else cps(t[:a])
+            syms = []
+            for sy in t[a + 1:b].split(" "):
+                if not sy:
+                    continue
+                nm, kd, sel, rg = sy.split("/")
+                syms.append((cps(nm), int(kd), tuple(int(x) for x in sel.split(":")), tuple(int(x) for x in rg.split(":"))))
+            uses = [cps(u) for u in t[b + 2:-1].split(" ") if u]
+            tabs.append((cls, syms, uses))
+        res[mode] = tabs
+    return res
+
+
+def annot_oracle(case, obs):
+    """C10's clause about link ranges, on the implementation's output alone: the selection range of every symbol
+       of every table is one line wide, lies inside the symbol's range, and the source text sliced by it is the
+       symbol's name (`self`: the class name, i.e. the name of the symbol inserted just before it)."""
+    if obs == "" or obs.startswith("X"):
+        return None                     # lexer/parser did not return (C04's subject)
+    if obs.startswith("PANIC") or obs == "CRASH" or obs.startswith("ERR") or "!DOCINFO" in obs:
+        return "annotator did not deliver tables: %s" % obs[:200]
+    tabs = annot_parse_tables(obs)
+    if tabs is None:
+        return "unreadable observation"
+    lines = a_text(case).split("\n")
+    for mode in ("F", "D"):
+        for ti, (cls, syms, uses) in enumerate(tabs[mode]):
+            prev = None
+            for (nm, kd, sel, rg) in syms:
+                where = "%s table %d symbol %r" % (mode, ti, nm)
+                sl, sc, el, ec = sel
+                if sl != el or sl >= len(lines):
+                    return "%s: selection range %r not on one existing line" % (where, sel)
+                want = prev if (nm == "self" and kd == 0 and prev is not None) else nm
+                got = lines[sl][sc:ec]
+                if "#" in want and kd in (3, 4):
+                    got = "".join(got.split())        # `Name # Event`: the id is the two names joined by '#'
+                if got != want:
+                    # token ends are start + UTF-8 byte length (C08 TokSorted): tolerated for non-ASCII names only
+                    if not (any(ord(c) > 127 for c in want) and lines[sl][sc:sc + len(want)] == want):
+                        return "%s: text at selection range %r is %r" % (where, sel, got)
+                if not ((rg[0], rg[1]) <= (sl, sc) and (el, ec) <= (rg[2], rg[3])):
+                    return "%s: selection %r outside range %r" % (where, sel, rg)
+                prev = nm
+    return None
+
+
+def annot_nontrivial(case):
+    t = a_text(case)
+    return sum(1 for l in t.split("\n") if l.strip()) >= 4
+
+
+def annot_describe(case):
+    return a_text(case)
+
+
+def annot_shrinker(case):
+    t = a_text(case)
+    lines = t.split("\n")
+    for i in range(len(lines)):
+        yield a_cps("\n".join(lines[:i] + lines[i + 1:]))
+
+
+def annot_cases(ctx):
+    rng = random.Random(ctx.seed * 7919 + 10)
+    hist = {}
+    texts = []
+
+    def add(kind, t):
+        # the case line is code points separated by '.'; an empty document is the empty line
+        texts.append(t)
+        hist[kind] = hist.get(kind, 0) + 1
+
+    for t in A_FIXED:
+        add("fixed", t)
+    files = sorted(glob.glob("/repo/test/*.god") + glob.glob("/repo/test/workspace/*.god"))
+    ftexts = []
+    for f in files:
+        t = open(f, "rb").read().decode("utf-8", errors="replace")
+        ftexts.append(t)
+        add("repo_test_file", t)
+    scale = 1 if ctx.quick else 12
+    g = goldgen.Gen(rng)
+    gtexts = []
+    for _ in range(450 * scale):
+        t = g.gen_program()[0]
+        gtexts.append(t)
+        add("goldgen_program", t)
+    ag = AGen(rng)
+    atexts = []
+    for _ in range(450 * scale):
+        t = ag.program()
+        atexts.append(t)
+        add("scoping_shaped_program", t)
+    for _ in range(550 * scale):
+        k = rng.random()
+        base = rng.choice(atexts) if k < 0.55 else rng.choice(gtexts) if k < 0.85 else rng.choice(ftexts)
+        t = a_mutate(rng, base)
+        if rng.random() < 0.3:
+            t = a_mutate(rng, t)
+        add("mutated", t)
+    return [a_cps(t) for t in texts], hist
+
+
+def annot_stage(ctx):
+    cases, hist = annot_cases(ctx)
+    cov = diff.differential(ctx, "annot", cases, split=lambda out: tuple(out.split("#", 1)), oracle=annot_oracle,
+                            shrinker=annot_shrinker, nontrivial=annot_nontrivial, describe=annot_describe)
+    cov["input_histogram"] = hist
+    # how many of the documents have the regular shape C10_tables_from_tree is stated for (AnnotProofs.regularb)
+    dumps = [o.split("#", 1)[0] for o in core.run_lines(diff.Engines.harness(), "annot", cases)]
+    flags = core.run_lines(diff.Engines.model(), "annotreg", dumps)
+    cov["regular_documents"] = sum(1 for f in flags if f == "1")
+    cov["irregular_documents"] = sum(1 for f in flags if f == "0")
+    cov["rule"] = ("every document is lexed+parsed by the real code (DocumentService::parse_content), the tree is dumped, "
+                   "SemanticAnalysisService::analyze runs the real AstAnnotator on it in the full and in the definitions-only mode; "
+                   "observation = for the root table and every method node's table, in walk order: for_class_or_module, every symbol "
+                   "in iter_symbols order (id, SymbolType, selection_range, range) and get_list_of_uses; compared with the extracted "
+                   "Annot.annotate on the dumped tree. Oracle (implementation alone): the source text sliced by each symbol's "
+                   "selection range is the symbol's name, on one line, inside the symbol's range. Documents: goldgen programs, "
+                   "scoping-shaped classes/modules (procedure/function types with parameters, locals in nested blocks, Name#Event, "
+                   "forward/external, duplicate names, names differing in case only, untyped parameters, declarations / uses / "
+                   "headers after methods), the .god files of /repo/test and /repo/test/workspace, and mutated variants "
+                   "(duplicated / re-cased / moved / deleted lines, dropped types, #Event names, character edits, truncation)")
+    cov["samples"] = [annot_describe(cases[len(A_FIXED) + 25])[:400], annot_describe(cases[-1])[:400]]
+    return cov
